@@ -6,6 +6,7 @@ require (
 	github.com/getkin/kin-openapi v0.38.0
 	github.com/ghodss/yaml v1.0.0
 	github.com/vkd/goag v0.0.0
+	golang.org/x/tools v0.23.0
 	verif/rt v0.0.0
 )
 
@@ -17,7 +18,6 @@ require (
 	golang.org/x/mod v0.19.0 // indirect
 	golang.org/x/sync v0.7.0 // indirect
 	golang.org/x/text v0.16.0 // indirect
-	golang.org/x/tools v0.23.0 // indirect
 	gopkg.in/yaml.v2 v2.4.0 // indirect
 	gopkg.in/yaml.v3 v3.0.0-20200313102051-9f266ea9e77c // indirect
 )
